@@ -16,16 +16,20 @@
  *   M pes|ts pid cb|cor did min max   new multiplexer                 -> {"a":"mux",...}
  *   L line id <hex>            append a sliced line to the frame to be sent
  *   W line                     append a raw line (VBI_SLICED_VBI_625; samples from the raw frame)
- *   P offset samples           sampling parameters of the raw frame (default 132 720)
+ *   P offset samples           sampling parameters of the raw frame (default 132 720)   -> {"a":"rawpar",...}
  *   E hi lo                    vbi_dvb_mux_feed(frame, pts = hi << 30 | lo) -> {"a":"send","ok":..,"pk":[[bytes]..]}
  *   K hi lo b1 b2 ..           vbi_dvb_mux_cor until the frame is used up, buffer sizes b1 b2 .. cyclically
  *                                                                     -> {"a":"csend","ok":..,"out":[bytes],"calls":n}
  *   X                          vbi_dvb_mux_reset                      -> {"a":"mreset"}
+ * Watchdog: a command that does not return within 20 s ends the process with exit code 95 after printing
+ * {"a":"watchdog"}.
  */
 #include <stdio.h>
 #include <stdlib.h>
 #include <string.h>
 #include <ctype.h>
+#include <signal.h>
+#include <unistd.h>
 #include "config.h"
 #include "src/dvb_demux.c"
 #include "src/dvb_mux.h"
@@ -157,13 +161,24 @@ static void init_raw(unsigned offset, unsigned samples)
 			rawbuf[r * samples + i] = (r * 37 + i * 5 + 16) & 0xFF;
 }
 
+static void on_alarm(int sig)
+{
+	static const char msg[] = "\n{\"a\":\"watchdog\"}\n";
+	(void) sig;
+	fflush(stdout);
+	if (write(1, msg, sizeof msg - 1) < 0) _exit(94);
+	_exit(95);
+}
+
 int main(void)
 {
 	static char line[1 << 20];
 	setvbuf(stdout, NULL, _IOFBF, 1 << 18);
+	signal(SIGALRM, on_alarm);
 	init_raw(132, 720);
 	while (fgets(line, sizeof line, stdin)) {
 		char *p = line + 1;
+		alarm(20);
 		switch (line[0]) {
 		case 'R':
 			if (dx) vbi_dvb_demux_delete(dx);
@@ -299,7 +314,9 @@ int main(void)
 		case 'P': {
 			unsigned o, n;
 			sscanf(p, "%u %u", &o, &n);
+			if (n > 720) n = 720;
 			init_raw(o, n);
+			printf("{\"a\":\"rawpar\",\"offset\":%u,\"samples\":%u}\n", o, n);
 			break;
 		}
 		case 'E': {
